@@ -11,6 +11,9 @@ from riolib.core import MissingAnchor
 from riolib.prov import Prov, show, mentions, walk, mentions_field
 from riolib.sym import Sym, for_loops
 
+THOROUGH_CONFIGS = ['dot', 'nodefault', 'compress', 'router']
+
+
 TRAIT = "filter::header_action::HeaderAction"
 HEADER = "http::header::Header"
 
